@@ -34,6 +34,8 @@ def one(sid):
             meta["caught_by"] = sorted(c for c, x in checks.items() if x["detected"])
         meta["evaluated_at_repo_head"] = head
         json.dump(meta, open(d + "/meta.json", "w"), indent=1)
+        if meta.get("obsolete_at_head"):
+            return sid, True, "obsolete at HEAD (kept for the record): " + json.dumps({k: r.get(k) for k in ("applies", "builds", "demo_fails_on_patched")})
         ok = bool(r.get("applies")) and bool(r.get("builds")) and bool(meta.get("caught_by")) and r.get("demo_fails_on_patched", True) and r.get("demo_passes_on_pristine", True)
         return sid, ok, json.dumps({k: r.get(k) for k in ("applies", "builds", "demo_fails_on_patched", "demo_passes_on_pristine")}) + " caught_by=%s" % meta.get("caught_by")
     finally:
